@@ -31,7 +31,9 @@ EpochGuard::operator=(          //
     EpochGuard &&rhs) noexcept  //
     -> EpochGuard &
 {
-  if (epoch_ != nullptr) {
+  // when both guards refer to the same thread-local epoch (e.g. `guard = CreateEpochGuard()`),
+  // the right-hand side has just re-entered it: leaving now would drop that protection
+  if (epoch_ != nullptr && epoch_ != rhs.epoch_) {
     epoch_->LeaveEpoch();
   }
   epoch_ = rhs.epoch_;
